@@ -650,6 +650,17 @@ Varable failures: {var_failed}
         newkeys = set(varkeys).difference(keys + ['ETFLAG', 'TFLAG'])
         for varkey in varkeys:
             if varkey in newkeys:
+                # VAR-LIST is fixed width and lists only variables with
+                # the standard dimensions (see getVarlist)
+                if len(varkey) > 16:
+                    continue
+                if varkey in self.variables:
+                    vdims = tuple(self.variables[varkey].dimensions)
+                    if (
+                        vdims != ('TSTEP', 'LAY', 'ROW', 'COL') and
+                        vdims != ('TSTEP', 'LAY', 'PERIM')
+                    ):
+                        continue
                 varliststr += varkey.ljust(16)
                 keys.append(varkey)
         setattr(self, 'NVARS', len(keys))
